@@ -1,10 +1,63 @@
 (** Property C17 — diagnostics land on the template text; parse errors are never masked.
-    OBLIGATIONS: C17_nonvacuous *)
-From GV Require Import Compiler.Compile.
+    OBLIGATIONS: C17_cache_tracks_buffer C17_delivery C17_error_position C17_same_line_range C17_multi_line_range
+      C17_never_generated_uri C17_message_relay C17_nonvacuous *)
+From GV Require Import Proxy.Proxy Proofs.ProxyProofs.
 
+(** for every interleaving of editor events and gopls messages — a change being two atomic parts between which
+    the other connection may deliver — the cache holds the compiler's error of the stored buffer, or nothing *)
+Theorem C17_cache_tracks_buffer : forall compile es, diag_coherent compile (fst (run compile ps_init es)).
+Proof. intros compile es. apply diag_coherent_run. apply diag_coherent_init. Qed.
+Print Assumptions C17_cache_tracks_buffer.
+
+(** what gopls publishes for a generated file reaches the editor under the template's URI, preceded by the
+    compiler's own error exactly while the stored buffer fails to compile *)
+Theorem C17_delivery : forall compile st gu ds text m,
+  diag_coherent compile st -> is_goht_go_uri gu = true -> lookup (to_goht gu) (ps_srcs st) = Some text ->
+  lookup (to_goht gu) (ps_smc st) = Some m ->
+  snd (fst (step compile st (EGoDiag gu ds))) =
+    [Cl (ClDiag (to_goht gu) ((match c_err (compile text) with Some e => [compiler_diag e] | None => [] end) ++ map (translate_diag m) ds))].
+Proof. exact go_diag_delivery. Qed.
+Print Assumptions C17_delivery.
+
+Theorem C17_error_position : forall l c msg,
+  (1 <= l)%Z -> (1 <= c)%Z ->
+  d_range (compiler_diag (Some (l, c), msg)) = mkRange (mkPos (l - 1) (c - 1)) (mkPos (l - 1) (c - 1)) /\
+  d_goht (compiler_diag (Some (l, c), msg)) = true.
+Proof. exact compiler_diag_position. Qed.
+Print Assumptions C17_error_position.
+
+Theorem C17_same_line_range : forall m d s,
+  t2s_pos m (r_start (d_range d)) = Some s -> p_line (r_start (d_range d)) = p_line (r_end (d_range d)) ->
+  d_range (translate_diag m d) =
+    mkRange s (mkPos (p_line s) (p_char s + (p_char (r_end (d_range d)) - p_char (r_start (d_range d))))%Z).
+Proof. exact translate_diag_same_line. Qed.
+Print Assumptions C17_same_line_range.
+
+Theorem C17_multi_line_range : forall m d s e,
+  t2s_pos m (r_start (d_range d)) = Some s -> p_line (r_start (d_range d)) <> p_line (r_end (d_range d)) ->
+  t2s_pos m (r_end (d_range d)) = Some e -> d_range (translate_diag m d) = mkRange s e.
+Proof. exact translate_diag_multi_line. Qed.
+Print Assumptions C17_multi_line_range.
+
+(** notifications go out under a template URI (from parseTemplate) or under to_goht of a generated URI:
+    neither is a generated-file URI *)
+Theorem C17_never_generated_uri : forall u, is_goht_uri u = true -> is_goht_go_uri u = false.
+Proof. exact template_uri_not_generated. Qed.
+Print Assumptions C17_never_generated_uri.
+
+Theorem C17_message_relay : forall compile st text,
+  snd (fst (step compile st (EGoMsg text))) = if has_prefix c_doNotEditMessage text then [] else [Cl (ClMsg text)].
+Proof. exact message_relay. Qed.
+Print Assumptions C17_message_relay.
+
+(** non-vacuity: invalid buffer, a gopls publication delivered between the two parts of the next change *)
 Example C17_nonvacuous :
-  match compile_parse (lit "package x" ++ [10] ++ lit "@goht T() {" ++ [10] ++ lit "  %p" ++ [10] ++ lit "}" ++ [10]) with
-  | ODone _ (Some (PosErr l c _)) => Z.eqb l 3 && Z.eqb c 1
+  let u := lit "file:///w/a.goht" in
+  let good := lit "package x" ++ [10] ++ lit "@goht T() {" ++ [10; 9] ++ lit "%p ok" ++ [10] ++ lit "}" ++ [10] in
+  let bad := lit "package x" ++ [10] ++ lit "@goht T() {" ++ [10] ++ lit "  %p" ++ [10] ++ lit "}" ++ [10] in
+  let es := [EOpen u (lit "goht") 1 bad; EChange1 u 2 good; EGoDiag (lit "file:///w/a.goht.go") []; EChange2 u 2] in
+  match rev (snd (run model_compile ps_init es)) with
+  | _ :: (outs, _) :: _ => match outs with [Cl (ClDiag _ [])] => true | _ => false end
   | _ => false
   end = true.
 Proof. vm_compute. reflexivity. Qed.
